@@ -36,6 +36,7 @@ def corpus():
          'SWwWKw',                                # several waiters
          'X', 'SX', 'SpX', 'gX', 'SgX', 'EX', 'SpFX', 'SWX', 'SpSX',   # shutdown at every stage
          'cWuK', 'ScWupK', 'SpkWupK',             # foreign halves of _put around a wait
+         'nWK', 'cnWK', 'SpKnwpK',             # foreign submission from the foreign thread's own running loop
          'cUK', 'cVpK', 'SpcKUK', 'SpcKVpK', 'SpkUK', 'ScUK',   # foreign thread: submit, then wait_from_anywhere()
          'SpBK', 'SpbK', 'SpBFpK', 'BK', 'bpK', 'SBK', 'gBeK', 'SpSBKK', 'SpBpKK']   # submit + wait() in the same task step
     return [c for c in (B.letters_case(T, w) for T in (8, 100) for w in W) if c]
@@ -47,7 +48,7 @@ def gen_exhaustive(tier, seed):
     # Shutdown at every quiescent point of every short program
     out += B.word_cases('SLEagyfempKFWw', L - 1, tail=False, suffixes=('X',))
     out.append(B.letters_case(8, 'X'))
-    out += B.foreign_cases(base_alpha='SgyepKFWw', maxlen=3 if tier == 'quick' else 4, puts='uUV')
+    out += B.foreign_cases(base_alpha='SgyepKFWw', maxlen=3 if tier == 'quick' else 4, puts='uUVn')
     # submit-then-wait in one task step (no loop iteration in between) at every point of short programs
     out += B.word_cases('SBbpKFW', L)
     return out
